@@ -51,6 +51,7 @@ type result struct {
 	K       int
 	Blocked bool
 	Got     []any // read: the destination prefix [:K] as returned
+	Spill   int   // read: destination slots past the returned count that were overwritten
 }
 
 func (o op) gallina() string {
@@ -110,6 +111,12 @@ func apply(r *ringbuf.Ring, o op) result {
 		if n > 0 {
 			for _, e := range dst[:min(n, len(dst))] {
 				res.Got = append(res.Got, e)
+			}
+		}
+		// nothing may be transferred past the returned count
+		for _, e := range dst[min(max(n, 0), len(dst)):] {
+			if e != "sentinel" {
+				res.Spill++
 			}
 		}
 		return res
@@ -244,6 +251,10 @@ func runSeq(run *vgen.Run, s seqCase, id int, kind string) {
 		case x := <-done:
 			ops = append(ops, o)
 			res = append(res, x)
+			if x.Spill > 0 {
+				run.Violate(id, fmt.Sprintf("Read returned %d but overwrote %d destination slots past that count", x.K, x.Spill),
+					map[string]any{"cap": s.c, "full": s.full, "ops": fmt.Sprint(ops)}, "read-spill")
+			}
 			switch o.Kind {
 			case kWrite:
 				if x.K > 0 {
@@ -576,10 +587,40 @@ loop:
 	if viol != nil {
 		return nil, init, lateClose, viol
 	}
+	// drain: a recorded Close and Reads until the ring reports closure, so that
+	// the entries of the last writes are observed too (none may be lost)
+	drain := []op{{Kind: kClose}}
+	for i := 0; i < 4; i++ {
+		drain = append(drain, op{Kind: kRead, N: h.c + 5, Block: true})
+	}
+	for i, o := range drain {
+		inv := ctr.Add(1)
+		var x result
+		if p, msg := vgen.Recover(func() { x = apply(r, o) }); p {
+			return nil, init, lateClose, &violation{"panic in the ring buffer while draining: " + msg,
+				map[string]any{"cap": h.c, "threads": fmt.Sprint(h.threads)}, "panic"}
+		}
+		ret := ctr.Add(1)
+		extra = append(extra, hrec{O: o, R: x, Inv: inv, Ret: ret})
+		if o.Kind == kRead && x.K < 0 {
+			break
+		}
+		if i == len(drain)-1 {
+			return nil, init, lateClose, &violation{"a closed ring never reported closure to the draining reads",
+				map[string]any{"cap": h.c, "threads": fmt.Sprint(h.threads)}, "drain"}
+		}
+	}
 	for t := range out {
 		recs = append(recs, out[t]...)
 	}
 	recs = append(recs, extra...)
+	for _, x := range recs {
+		if x.R.Spill > 0 {
+			return nil, init, lateClose, &violation{
+				fmt.Sprintf("Read returned %d but overwrote %d destination slots past that count", x.R.K, x.R.Spill),
+				map[string]any{"cap": h.c, "op": x.O.String(), "threads": fmt.Sprint(h.threads)}, "read-spill"}
+		}
+	}
 	sort.Slice(recs, func(i, j int) bool { return recs[i].Ret < recs[j].Ret })
 	return recs, init, lateClose, nil
 }
@@ -606,6 +647,13 @@ func emitHist(run *vgen.Run, h histCase, recs []hrec, init []uint64, lateClose b
 	}
 	run.Tally(fmt.Sprintf("hist:goroutines:%d", len(h.threads)))
 	run.Tally(fmt.Sprintf("hist:ops:%02d", len(recs)))
+	drained := 0
+	for _, x := range recs {
+		if x.O.Kind == kRead && x.O.N == h.c+5 && x.R.K > 0 {
+			drained += x.R.K
+		}
+	}
+	run.Tally(fmt.Sprintf("hist:entries-found-by-final-drain:%s", bucket(drained)))
 	run.Tally(fmt.Sprintf("hist:overlapping-pairs:%s", bucket(overlaps)))
 	run.Tally(fmt.Sprintf("hist:calls-that-waited:%s", bucket(blocked)))
 	run.Tally(fmt.Sprintf("hist:closed-by-watchdog:%v", lateClose))
@@ -868,7 +916,7 @@ func main() {
 	run.Rule = "A: sequential op lists on a real ringbuf.Ring (cap 0..16, batch sizes 0..21, empty or pre-filled, " +
 		"blocking flag only where the call cannot block, Close, then drained), exact (count, blocked, entries) per call; " +
 		"non-trivial = more entries written than the capacity (the indices wrapped) and >= 2 transfers. " +
-		"B: concurrent histories (2..8 goroutines, <= 15 calls, blocking and non-blocking, one Close by a goroutine or " +
+		"B: concurrent histories (2..8 goroutines, <= 15 calls + a recorded final Close and Reads until -1, blocking and non-blocking, one Close by a goroutine or " +
 		"by the watchdog), checked inside Coq for the existence of a linearization w.r.t. the bounded FIFO; " +
 		"non-trivial = overlapping calls and >= 1 transfer. C: sequential op lists on a pktRing; non-trivial = a " +
 		"batch refill and >= 2 packets handed out. D: concurrent pktRing histories (ring pre-filled to 64 (3/4) or 58..63, " +
